@@ -25,7 +25,8 @@ comparison.  The monitors never see the model and are unaffected.  Summary line:
 `resyncs=` rebuilt states, `inexact=` rebuilt states that still render differently from
 the observation (the implementation is in a state the model cannot represent),
 `suppressed=` DISAGREE lines beyond the bound.  Header key `forceresync=1` (self-test,
-`tools/resync_selftest.sh`): rebuild after *every* observation.
+`tools/resync_selftest.sh`): rebuild after *every* observation; `noresync=1`: never rebuild
+(the behaviour before re-synchronisation existed, for A/B comparisons).
 -/
 namespace CwPlus.Driver
 open CwPlus Wire
@@ -138,7 +139,9 @@ def runTrace {σ μ : Type} (sc : Scen σ μ) (header : String) (lines : List St
   let hargs := args (tokens header)
   let tid := hargs.str "trace"
   let recs := groupOps lines
-  let canResync := sc.resync.isSome
+  -- header `noresync=1` (A/B comparison by hand): behave as a scenario without `resync`
+  let resync := if hargs.str "noresync" == "1" then none else sc.resync
+  let canResync := resync.isSome
   -- self-test of `resync` (header `forceresync=1`, added to a trace file by hand): the model is rebuilt
   -- from every observation, also when nothing disagrees; an exact `resync` changes no verdict
   let force := hargs.str "forceresync" == "1"
@@ -233,7 +236,7 @@ def runTrace {σ μ : Type} (sc : Scen σ μ) (header : String) (lines : List St
         let st :=
           if !st.diverged && !force then st
           else
-            match sc.resync.bind (fun f => f st.model implObs) with
+            match resync.bind (fun f => f st.model implObs) with
             | some m' =>
               { st with model := m', diverged := false, resyncs := st.resyncs + 1,
                         inexact := st.inexact + (if (allDiffs (sc.obs m') implObs).isEmpty then 0 else 1) }
